@@ -10,6 +10,7 @@ mod framework;
 mod kinds;
 mod prng;
 
+mod c03;
 #[cfg(not(feature = "nostd"))]
 mod c12;
 
@@ -61,6 +62,10 @@ fn replay_with<S: Scenario>(s: &S, file: &Value) -> i32 {
 macro_rules! scenarios {
     ($name:expr, $s:ident => $body:expr) => {
         match $name {
+            "c03" => {
+                let $s = c03::C03;
+                $body
+            }
             #[cfg(not(feature = "nostd"))]
             "c12" => {
                 let $s = c12::C12 { lies: false };
